@@ -448,6 +448,35 @@ def _next(E, path, fv, args, kwargs, frame):
     raise Unsupported("next()")
 
 
+def _enumerate(E, path, fv, args, kwargs, frame):
+    start = kwargs.get("start", args[1] if len(args) > 1 else 0)
+    items = E.iter_concrete(path, args[0])
+    if not isinstance(start, int):
+        raise Unsupported("enumerate with symbolic start")
+    if items is None:
+        from .symexec import EnumIter
+        return EnumIter(args[0], start)
+    return GenVal([(start + i, x) for i, x in enumerate(items)])
+
+
+def _zip(E, path, fv, args, kwargs, frame):
+    cols = [E.iter_concrete(path, a) for a in args]
+    if any(c is None for c in cols):
+        raise Unsupported("zip over a symbolic-length sequence")
+    return GenVal([tuple(t) for t in zip(*cols)])
+
+
+def _repr(E, path, fv, args, kwargs, frame):
+    (x,) = args
+    if isinstance(x, (str, int, bool, type(None), float)):
+        return repr(x)
+    try:
+        pv = E.to_pv(x)
+    except Unsupported:
+        pv = E.U.fresh("reprarg")
+    return SStr([Atom(E.uf("py_repr", E.PV, z3.StringSort())(pv), ("py_repr", pv))])
+
+
 def _any(E, path, fv, args, kwargs, frame):
     return _fold(E, path, args[0], True)
 
@@ -740,7 +769,7 @@ def _dict_values(E, path, fv, args, kwargs, frame):
 _TABLE = {
     "isinstance": _isinstance, "len": _len, "str": _str, "getattr": _getattr, "hasattr": _hasattr,
     "type": _type, "tuple": _tuple, "list": _list, "reversed": _reversed, "iter": _iter, "next": _next,
-    "any": _any, "all": _all, "int": _int, "float": _float, "super": _super,
+    "any": _any, "all": _all, "enumerate": _enumerate, "zip": _zip, "repr": _repr, "int": _int, "float": _float, "super": _super,
     "str.replace": _str_replace, "str.upper": _str_case("upper"), "str.lower": _str_case("lower"),
     "str.split": _str_split, "str.join": _str_join, "str.startswith": _str_startswith,
     "str.endswith": _str_endswith,
